@@ -3,7 +3,7 @@
 tier=${1:-quick}
 cd "$(dirname "$0")/.."
 # (my own sessions serialise users of /repo's working tree with this lock; it is not needed for a single run)
-exec 9>/tmp/repo.lock; flock 9
+if [ -z "$VERIF_REPO" ]; then exec 9>/tmp/repo.lock; flock 9; fi
 for id in $(python3 -c "import json; print(' '.join(c['property_id'] for c in json.load(open('MANIFEST.json'))['checks']))"); do
   s=$(date +%s)
   out=$(python3 run/check.py $id --tier $tier 2>/tmp/verif_all_$id.err); rc=$?
